@@ -118,26 +118,34 @@ pub struct SrcEval<'a> {
     ab: u32,
     /// integer translation of the total sampling matrix, for images
     off: Option<(i32, i32)>,
+    /// the total sampling matrix exists and is finite
+    sampling_finite: bool,
 }
 
 impl<'a> SrcEval<'a> {
     pub fn new(spec: &'a SrcSpec, alpha: f32, xf: &Xf) -> SrcEval<'a> {
         let ab = pix::alpha_byte(alpha);
         let mut off = None;
+        let mut sampling_finite = false;
         if let SrcSpec::Image { xf: sxf, .. } = spec {
             if let Some(ti) = xf_to(xf).inverse() {
                 let m = ti.then(&xf_to(sxf));
+                sampling_finite = [m.m11, m.m12, m.m21, m.m22, m.m31, m.m32].iter().all(|v| v.is_finite() && v.abs() < 1000.0);
                 if m.m11 == 1. && m.m12 == 0. && m.m21 == 0. && m.m22 == 1. && m.m31.fract() == 0. && m.m32.fract() == 0. && m.m31.abs() < 1e6 && m.m32.abs() < 1e6 {
                     off = Some((m.m31 as i32, m.m32 as i32));
                 }
             }
         }
-        SrcEval { spec, ab, off }
+        SrcEval { spec, ab, off, sampling_finite }
     }
     pub fn at(&self, x: i32, y: i32) -> Option<u32> {
         match self.spec {
             SrcSpec::Solid(c) => Some(pix::scale(*c, self.ab)),
             SrcSpec::Image { w, h, data, repeat, .. } => {
+                // an image whose texels are all equal has that colour wherever and however it is sampled
+                if self.off.is_none() && !data.is_empty() && data.iter().all(|t| *t == data[0]) && self.sampling_finite {
+                    return Some(pix::scale(data[0], self.ab));
+                }
                 let (ox, oy) = self.off?;
                 let (mut ix, mut iy) = (x + ox, y + oy);
                 if *repeat {
